@@ -34,7 +34,7 @@ func main() {
 	defer c.Finish()
 	worker = common.NewWorker()
 	defer worker.Close()
-	c.Res.Rule = "name cases: byte strings (all 256 single bytes, each byte between two letters, all pairs and (thorough: all, quick: sampled) triples of a 30-symbol hostile alphabet, keywords, random strings); distinct = distinct byte string; non-trivial = escaping changes the string (names), contains % or outer white space (unescape), lexes as one Name (lexer). Document cases: seeded abstract documents (2-5 schemas: objects with 1-9 primitive / $ref / array / inline-object properties and a required list of any length, array / enum / primitive definitions, acyclic references; 1-4 path+method endpoints with path / query / header / body parameters and 1-3 responses) rendered as OpenAPI 2 JSON, OpenAPI 3 JSON, XSD, or CREATE TABLE DDL (postgres / mysql / spanner), with plain, hostile (\" = @ ~ . : + $ & blanks non-ASCII ...) or keyword / builtin names; one case = one document imported and compiled, then imported again (Go-writer path: 16 imports in one process; the first media-type documents also once in each of 16 fresh processes; arr.ai path: 2-4 imports), every text byte-identical; non-trivial = the document has at least one property. Type x format stream: every OpenAPI type (string, integer, number, boolean) with no format, with each of the 10 formats the importer's table lists for any type and with 12 unlisted formats (uint32, uint64, int16, int8, decimal, email, password, hostname, ipv4, time, currency, x-custom), each pair as a property, an array-item property, a top-level definition, a top-level array definition, a path / query / header parameter and a (plain / array) response (OpenAPI 2: all 92 pairs every run; OpenAPI 3: 8 pairs per quick run rotating with the seed, all in thorough). Media-type stream: 1-3 paths x 1-3 methods, body in 2-4 request media types (operation- or document-level consumes / several requestBody.content entries), 1-3 response media types, 1-4 responses per operation incl. default with $ref / array / primitive / no schema. XSD builtins stream: elements and attributes over 18 builtin types"
+	c.Res.Rule = "name cases: byte strings (all 256 single bytes, each byte between two letters, all pairs and (thorough: all, quick: sampled) triples of a 30-symbol hostile alphabet, keywords, random strings); distinct = distinct byte string; non-trivial = escaping changes the string (names), contains % or outer white space (unescape), lexes as one Name (lexer). Document cases: seeded abstract documents (2-5 schemas: objects with 1-9 primitive / $ref / array / inline-object properties and a required list of any length, array / enum / primitive definitions, acyclic references; 1-4 path+method endpoints with path / query / header / body parameters and 1-3 responses) rendered as OpenAPI 2 JSON, OpenAPI 3 JSON, XSD, or CREATE TABLE DDL (postgres / mysql / spanner), with plain, hostile (\" = @ ~ . : + $ & blanks non-ASCII ...) or keyword / builtin names; one case = one document imported and compiled, then imported again (Go-writer path: 16 imports in one process; the first media-type documents also once in each of 16 fresh processes; arr.ai path: 2-4 imports), every text byte-identical; non-trivial = the document has at least one property. Type x format stream: every OpenAPI type (string, integer, number, boolean) with no format, with each of the 10 formats the importer's table lists for any type and with 12 unlisted formats (uint32, uint64, int16, int8, decimal, email, password, hostname, ipv4, time, currency, x-custom), each pair as a property, an array-item property, a top-level definition, a top-level array definition, a path / query / header parameter and a (plain / array) response (OpenAPI 2: all 92 pairs every run; OpenAPI 3: 8 pairs per quick run rotating with the seed, all in thorough). Media-type stream: 1-3 paths x 1-3 methods, body in 2-4 request media types (operation- or document-level consumes / several requestBody.content entries), 1-3 response media types, 1-4 responses per operation incl. default with $ref / array / primitive / no schema. XSD builtins stream: elements and attributes over 18 builtin types. Nested stream (OpenAPI 2): 3-6 definitions over inline objects to depth 3 (also empty), inline enums, arrays and arrays of arrays of any of these, array definitions of inline objects / arrays / $ref to array definitions, allOf with $ref and inline parts and own properties (diamonds included), definitions that are a $ref, builtin-prefixed names; plus three literal documents (allOf diamond, a definition named like a generated inline type, an allOf that redeclares a property). Hostile-parameter stream: one operation with ONE hostile name - a path / query / header parameter name out of 26 or a static path segment out of 24 (characters that need escaping, keywords, native type words, leading digit, non-ASCII) - every (role, name) pair once in thorough, 36 per quick run rotating with the seed. Parameter-name stream: documents with an operation of 12 required string query parameters and one of 12 required string header parameters over names built from a 40-symbol alphabet (one symbol between / before / behind letters, hostile names, random strings, everyday names); the two method lines of the imported text are compared with the model (no compile)"
 	if c.Replay != "" {
 		b, err := os.ReadFile(c.Replay)
 		if err != nil {
@@ -78,7 +78,9 @@ func main() {
 		return
 	}
 	tn := time.Now()
-	namesStream(c)
+	if os.Getenv("C11_ONLY") == "" {
+		namesStream(c)
+	}
 	c.Res.Notes = append(c.Res.Notes, fmt.Sprintf("name streams: %.1fs", time.Since(tn).Seconds()))
 	docsStream(c)
 }
